@@ -12,7 +12,7 @@
     fromSizedDeltas(16)/unmarshalDocSections, verify, and the per-document reads of a search.  JSON metadata parsing,
     the roaring bitmap, calculateStats, the b-tree construction and the match iterators are NOT in these theorems;
     they are covered by the hunt (all truncations / single-bit flips of real shards served in subprocesses). *)
-From ZV Require Import Lib.Base Lib.Varint Generated.FormatConsts Model.Format Model.FormatRobust Proofs.FormatRobust.
+From ZV Require Import Lib.Base Lib.Varint Generated.FormatConsts Model.Format Model.FormatRobust Proofs.FormatRobust Model.FormatStats Proofs.FormatStats.
 Open Scope N_scope.
 
 (** The repaired delta decoders terminate on EVERY byte string, return a list no longer than the input, and ask
@@ -82,20 +82,68 @@ Theorem C11_load_norecover_refuted : load_shard (mmap_file witness_ngram) false 
 Proof. destruct norecover_panic as [H _]. split; [exact H|]. unfold load_shard_served. rewrite H. reflexivity. Qed.
 Print Assumptions C11_load_norecover_refuted.
 
-(** REFUTED (known finding c11:api-error:search:out-of-bounds, not repaired): isolation of the healthy shards.
+(** calculateStats (the last step of NewSearcher, after the section reads and verify) inside the model: for every
+    file, every format version and every number of repositories the JSON metadata may announce, loading with the
+    recover of loadShard yields a searcher or an error — the loops over repositories / documents are bounded by the
+    table lengths, every index is a checked operation, panics are recovered. *)
+Theorem C11_load_stats_safe : forall f next nrepos,
+  match load_shard_stats_served f next nrepos with Ok _ => True | Err _ => True | Panic _ => False end.
+Proof. exact load_shard_stats_served_safe. Qed.
+Print Assumptions C11_load_stats_safe.
+
+(** ... and the recover is needed there: a model-written 3-document shard whose fileNames record is zeroed in the TOC
+    passes every section read and verify() (which only compares the tables when there are file names), and
+    calculateStatsForFileRange then indexes the empty fileNameIndex — the call site the exhaustive hunt had found
+    before repair 88c1762.  The file is replayed on the implementation (class: error). *)
+Theorem C11_stats_norecover_refuted :
+  exists d, load_shard (mmap_file witness_stats) false = Ok d /\ calc_stats d 1 = Panic P_INDEX
+    /\ load_shard_stats_served (mmap_file witness_stats) false 1 = Err E_RECOVERED.
+Proof. exact stats_witness. Qed.
+Print Assumptions C11_stats_norecover_refuted.
+
+Example C11_nonvacuous_stats :   (* a healthy written shard passes calculateStats: 14 content bytes, 4 name bytes, 1 document *)
+  (do d <- load_shard (mmap_file iso_healthy) false; calc_stats d 1) = Ok [(14, 4, 1, (0, 0, 0))].
+Proof. exact stats_healthy. Qed.
+
+(** Isolation of the healthy shards (searchOneShard/streamSearch after "fix: search: a shard whose Search or List
+    returns an error is counted as a crashed shard"): for EVERY list of loaded shards — corrupt or not, in any order —
+    the sharded search succeeds, returns exactly the answers of the shards that answer, in shard order, and counts
+    every other shard in Stats.Crashes.  Hence a failing shard anywhere in the directory leaves the results of the
+    other shards unchanged (the count goes up by one). *)
+Theorem C11_isolation : forall shards g,
+  sharded_search shards g = Ok (shard_answers shards g, shard_failures shards g).
+Proof. exact sharded_search_isolated. Qed.
+Print Assumptions C11_isolation.
+
+Theorem C11_others_unaffected : forall l1 c l2 g, is_ok (shard_ngram_search c g) = false ->
+  exists n, sharded_search (l1 ++ c :: l2) g = Ok (shard_answers (l1 ++ l2) g, n)
+            /\ sharded_search (l1 ++ l2) g = Ok (shard_answers (l1 ++ l2) g, shard_failures (l1 ++ l2) g)
+            /\ n = shard_failures (l1 ++ l2) g + 1.
+Proof. exact sharded_search_others_unaffected. Qed.
+Print Assumptions C11_others_unaffected.
+
+(** REFUTED for streamSearch BEFORE that repair (former known finding c11:api-error:search:out-of-bounds).
     A shard whose postings index table points beyond the end of the file LOADS (offsets are not validated at load);
     a substring search reads the posting list of one of the pattern's trigrams (iterateNgrams: Get + readSectionBlob),
-    IndexFile.Read fails, Search returns that error, and streamSearch turns one shard's error into the failure of the
-    whole search: the healthy shard's result (posting list [8] for "nee" when searched alone) is lost.  Both files are
-    written by the model and replayed on the implementation by the hunt (classes served-ok / api-error).
+    IndexFile.Read fails, Search returns that error, and streamSearch turned one shard's error into the failure of the
+    whole search: the healthy shard's result (posting list [8] for "nee" when searched alone) was lost.  Both files are
+    written by the model and replayed on the implementation by the hunt (classes served-ok / contained-crash now).
     (Errors of per-document content reads do NOT propagate: contentProvider swallows them.) *)
-Theorem C11_isolation_refuted :
+Theorem C11_isolation_unfixed_refuted :
+  exists h c, load_shard (mmap_file iso_healthy) false = Ok h /\ load_shard (mmap_file witness_oob) false = Ok c
+    /\ sharded_search_unfixed [h] iso_ngram = Ok ([[8]], 0)
+    /\ shard_ngram_search c iso_ngram = Err E_OOB
+    /\ sharded_search_unfixed [h; c] iso_ngram = Err E_OOB.
+Proof. exact isolation_unfixed_refuted. Qed.
+Print Assumptions C11_isolation_unfixed_refuted.
+
+(** Non-vacuity of the isolation theorems: the model-written witness pair (a healthy shard and a loaded corrupt one) *)
+Example C11_nonvacuous_isolation :
   exists h c, load_shard (mmap_file iso_healthy) false = Ok h /\ load_shard (mmap_file witness_oob) false = Ok c
     /\ sharded_search [h] iso_ngram = Ok ([[8]], 0)
     /\ shard_ngram_search c iso_ngram = Err E_OOB
-    /\ sharded_search [h; c] iso_ngram = Err E_OOB.
-Proof. exact isolation_refuted. Qed.
-Print Assumptions C11_isolation_refuted.
+    /\ sharded_search [h; c] iso_ngram = Ok ([[8]], 1).
+Proof. exact isolation_witness. Qed.
 
 (** Non-vacuity: the same witness files are harmless for the repaired reader; a healthy written shard loads. *)
 Example C11_nonvacuous_fixed : forall w, In w [witness_hang; witness_alloc; witness_panic] ->
